@@ -7,6 +7,8 @@
 //                            freed by random threads and every owner collects: its heap must hold no pages
 //          exit   (C09)      threads terminate (mi_thread_done) with live blocks, others free/reclaim
 //          heap   (C10)      heaps are deleted / collected while other threads free into them
+//                            with a 6th argument `alog` the output is the step log of harness/s_conc_abandon.h (lockstep replay of
+//                            coq/Model/Abandon.v by `replay abandon-lockstep`)
 //          lock   (C02/C08)  the tfree program, but the output is the schedule-lockstep log for the Coq model
 //                            coq/Model/TFree.v (format: header of ocaml/mode_tfree.ml, replayed by `replay tfree-lockstep`):
 //                            A/R call brackets, B live blocks, H heaps, G page snapshots at call return, S atomic steps
@@ -179,8 +181,11 @@ static void lk_call(const char* what, void* p) {            // "A <tid> <call> [
 }
 static void lk_ret(void) { if (lockfmt && do_log) { printf("R %d\n", cur); lk_sync(); } }
 
+#include "s_conc_abandon.h"   // mode `exit` + `alog`: the step log for the lockstep replay of coq/Model/Abandon.v (C09)
+
 int verif_pre(int op, volatile void* p) {
   if (!sched_on) return 0;
+  if (ablog) ab_pre(op, p);
   steps++;
   if (steps > max_steps) { printf("V livelock t%d step budget exhausted (%ld steps)\nEND steps=%ld viol=%ld\n", cur, steps, steps, nviol + 1); fflush(stdout); _exit(3); }
   int critical = (op != VOP_LOAD && op != VOP_YIELD && is_shared_word(p));
@@ -191,6 +196,7 @@ int verif_pre(int op, volatile void* p) {
 }
 void verif_post(int op, volatile void* p, int ok, uintptr_t oldv) {
   if (!sched_on || !do_log || p == NULL) return;
+  if (ablog) { ab_post(op, p, ok, oldv); return; }
   if (lockfmt) { lk_step(op, p, ok, oldv); return; }
   char cls[32]; classify(p, cls, sizeof cls);
   if (!strcmp(cls, "other")) return;
@@ -357,6 +363,7 @@ int main(int argc, char** argv) {
   uint64_t seed = strtoull(argv[2], NULL, 10); nthreads = atoi(argv[3]); nops = atoi(argv[4]); do_log = argc > 5;
   if (nthreads > MAXT) nthreads = MAXT;
   if (nthreads < 2) nthreads = 2;
+  ablog = (mode == 1 && argc > 5 && !strcmp(argv[5], "alog"));
   prng_seed(&G, seed * 2 + 1); prng_seed(&GP, seed * 2 + 2);
   { static const int sp[] = { 20, 55, 55, 85 }; stay_pct = sp[seed % 4]; }
   setvbuf(stdout, NULL, _IOFBF, 1 << 16);
@@ -376,6 +383,7 @@ int main(int argc, char** argv) {
     makecontext(&vts[i].ctx, vthread_main, 0);
     vts[i].alive = 1; vts[i].defheap = (mi_heap_t*)&_mi_heap_empty; vts[i].idx = i;
   }
+  if (ablog) ab_init();
   sched_on = 1;
   run_program();
   // wait for the others
